@@ -261,6 +261,13 @@ impl Engine for OpcodesEngine {
                 }
                 s.last = json!({"kind": "configured"});
             }
+            "run" => {
+                // one plain transaction under the configured fork: a call of an account without code
+                let evm = s.evm.as_mut().expect("run before configure");
+                let r = Self::transact(evm, Self::fresh_db(Bytes::new()));
+                assert!(matches!(r, Ok(ExecutionResult::Success { .. })), "plain call failed: {r:?}");
+                s.last = json!({"kind": "configured"});
+            }
             "info" => {
                 let b = geti(op, "byte") as usize;
                 s.last = match OPCODE_INFO_JUMPTABLE[b] {
@@ -285,7 +292,7 @@ impl Engine for OpcodesEngine {
             "exec" => format!("{}:{}@{}", gets(op, "path"), gets(op, "name"), gets(op, "fork")),
             "info" => gets(op, "name").to_string(),
             "call_addr" => format!("0x{:02x}{}@{}", geti(op, "addr"), if getb(op, "funded") { "+funded" } else { "" }, gets(op, "fork")),
-            "configure" => gets(op, "fork").to_string(),
+            "configure" | "run" => gets(op, "fork").to_string(),
             _ => String::new(),
         };
         format!("{}:{}:{}", name, subject, d.join(","))
